@@ -315,6 +315,95 @@ def rule_dom(ctx) -> None:
     ctx.holds("C02.DOM", "summary/uses-examined", "clematis/engine", f"{n_uses} observable uses of {n_reads} gated-value definitions examined in {len(DOM_FUNCS)} anchored functions (+ closures)")
 
 
+# Readers of a gated subtree outside DOM_FUNCS whose ungated use was confirmed harmless by reading (frozen instances:
+# a new reader, or a confirmed reader touching another subtree, is reported).  (function, subtree prefix) -> reason
+CONFIRMED_UNGATED: Dict[Tuple[str, str], str] = {
+    ("clematis.engine.gel:_graph_cfg", "graph."): "normalising accessor: copies graph.* sub-dictionaries and fills defaults, returns the dict; every consumer tests cfg['enabled'] first (C18.GATE) and run_turn's GEL call sites are gate-dominated (C02.MUT)",
+    ("clematis.engine.gel:observe_retrieval", "graph."): "disabled path echoes threshold/mode/alpha in its metrics dict; the only engine call sites are gate-dominated (C02.MUT), so the echo is never observed with the gate off",
+    ("clematis.engine.gel:tick", "graph."): "disabled path echoes half_life/floor in its metrics dict; call sites gate-dominated (C02.MUT)",
+    ("clematis.engine.orchestrator.core:Orchestrator.run_turn", "scheduler.policy"): "policy name copied into yield events, which exist only while slice_ctx is set, i.e. under scheduler.enabled (C02.MUT: budget derivation gate-dominated, stale budgets cleared)",
+    ("clematis.engine.stages.hybrid:_hybrid_cfg", "t2.hybrid."): "normalising accessor for t2.hybrid; rerank_with_gel returns the input unchanged unless cfg['enabled']",
+    ("clematis.engine.stages.hybrid:rerank_with_gel", "t2.hybrid."): "the flagged read IS the gate test on the normalised dict (`if not cfg.get('enabled')`), path imprecision of the accessor summary",
+    ("clematis.engine.stages.t2.core:t2_semantic", "perf.t2.reader.partitions"): "availability probe (read-only) feeding reader_mode, which assemble_metrics emits only under the metrics gate; use_reader itself is bool(perf.enabled and ... and partitions.enabled)",
+    ("clematis.engine.stages.t2.quality_trace:_config_digest", "t2.quality."): "helper of emit_trace, which is called only under the shadow triple gate (C02.ART)",
+    ("clematis.engine.stages.t2.quality_trace:_derive_trace_dir", "t2.quality."): "helper of emit_trace (C02.ART triple gate)",
+    ("clematis.engine.stages.t2.quality_trace:emit_trace", "t2.quality."): "called only under the shadow triple gate (C02.ART)",
+}
+
+
+def _validator_tables(ctx) -> Dict[str, Set[str]]:
+    m = ctx.prog.module("configs.validate")
+    out: Dict[str, Set[str]] = {}
+    for name, sts in m.globals_assigned.items():
+        if name.startswith("ALLOWED_"):
+            v = getattr(sts[0], "value", None)
+            if isinstance(v, ast.Set):
+                out[name] = {x.value for x in v.elts if isinstance(x, ast.Constant) and isinstance(x.value, str)}
+    if len(out) < 20:
+        raise AnalysisError("anchor-vanished: ALLOWED_* tables of configs/validate.py")
+    return out
+
+
+def _dead_key(tables: Dict[str, Set[str]], atom: str) -> bool:
+    """the validator rejects this key (its parent's ALLOWED_ table exists and does not list it): a validated config
+    cannot carry a value there, so reading it ungated has no effect"""
+    parts = [p for p in atom.split(".") if p != "*"]
+    for i in range(1, len(parts)):
+        tname = "ALLOWED_" + "_".join(parts[:i]).upper()
+        if tname in tables and parts[i] not in tables[tname]:
+            return True
+    return False
+
+
+def rule_dom_all(ctx) -> None:
+    """who-may-read: every other engine function that reads a gated subtree uses it gated, reads a key the validator rejects,
+    or is a confirmed instance"""
+    pe = PathEval(ctx, depth=2)
+    tables = _validator_tables(ctx)
+    n_fn = n_readers = 0
+    used_confirmed: Set[Tuple[str, str]] = set()
+    for fn in ctx.prog.all_funcs("clematis.engine"):
+        if fn.parent is not None or any(fn.qual == q or fn.qual.startswith(q + ".") for q in DOM_FUNCS):
+            continue
+        n_fn += 1
+        try:
+            gf = GatedFlow(ctx, fn, pe)
+        except AnalysisError:
+            raise
+        if not gf.taint and not gf.clean:
+            continue
+        n_readers += 1
+        per_atom: Dict[str, List[str]] = {}
+        meta: Dict[str, Tuple] = {}
+        for n, x, (sub, gates, atom), what in gf.uses():
+            if _exempt_use(ctx, fn, n, x) or gf.gate_holds(n, gates, x):
+                continue
+            per_atom.setdefault(atom, []).append(f"{what} at L{n.lineno}")
+            meta.setdefault(atom, (sub, gates, x))
+        for atom, where in sorted(per_atom.items()):
+            sub, gates, x0 = meta[atom]
+            if _dead_key(tables, atom):
+                ctx.info("C02.DOM", f"{fn.qual}/{atom}", fn.loc(x0), f"cfg:{atom} is read ungated but the validator rejects that key: no validated config carries a value there")
+                continue
+            if _callers_gated(ctx, pe, fn, gates):
+                ctx.holds("C02.DOM", f"{fn.qual}/{atom}", fn.loc(x0), f"cfg:{atom} is used ungated inside {fn.name}, but every caller enters it under {gates}")
+                continue
+            hit = [k for k in CONFIRMED_UNGATED if k[0] == fn.qual and (atom + ".").startswith(k[1] if k[1].endswith(".") else k[1] + ".") or (k[0] == fn.qual and atom.startswith(k[1]))]
+            if hit:
+                used_confirmed.add(hit[0])
+                continue
+            ctx.violation("C02.DOM", f"{fn.qual}/{atom}", fn.loc(x0),
+                          f"cfg:{atom} (inside the gated subtree `{sub}.*`, a key the validator accepts) influences {fn.name} without {', '.join(gates)} being known true ({'; '.join(where[:3])}) "
+                          "and this reader is not among the confirmed instances: with the gate off a value placed there still has an effect")
+    for k in sorted(used_confirmed):
+        ctx.holds("C02.DOM", f"{k[0]}/confirmed:{k[1]}", "sa/rules/c02.py", f"confirmed reader: {CONFIRMED_UNGATED[k]}", nontrivial=False)
+    stale = sorted(set(CONFIRMED_UNGATED) - used_confirmed)
+    for k in stale:
+        ctx.info("C02.DOM", f"{k[0]}/confirmed-unused:{k[1]}", "sa/rules/c02.py", "confirmed instance no longer needed (the read is now gated, dead or gone)")
+    ctx.floor("C02.DOM", "engine functions scanned for gated-subtree reads", n_fn, 300)
+    ctx.floor("C02.DOM", "engine functions outside the anchored list that read a gated subtree", n_readers, 8)
+
+
 def rule_subgate(ctx) -> None:
     pe = PathEval(ctx, depth=2)
     for q, sub in (("clematis.engine.util.metrics:gate_on", "cfg:perf.metrics.report_memory"),):
@@ -436,6 +525,7 @@ def rule_val(ctx) -> None:
 
 def run(ctx) -> None:
     rule_dom(ctx)
+    rule_dom_all(ctx)
     rule_subgate(ctx)
     rule_art(ctx)
     rule_mut(ctx)
